@@ -60,6 +60,8 @@ var harnessPackages = []string{
 	repoPath + "/protocol/listoffsets",
 	repoPath + "/protocol/saslauthenticate",
 	repoPath + "/sasl/plain",
+	repoPath + "/sasl/scram",
+	repoPath + "/sasl",
 }
 
 func strArg(v Value) string {
@@ -388,6 +390,9 @@ func init() {
 	reg("os.Hostname", func(ex *Exec, st *State, fr *Frame, args []Value) (Value, ctlT) {
 		return TupleVal{StrVal{S: "vhost"}, IfaceVal{}}, ctlRet
 	})
+	for _, n := range []string{"crypto/internal/boring/sig.StandardCrypto", "crypto/internal/boring/sig.BoringCrypto", "crypto/internal/boring/sig.FIPSOnly"} {
+		reg(n, func(ex *Exec, st *State, fr *Frame, args []Value) (Value, ctlT) { return nil, ctlRet })
+	}
 	reg("os.Getpid", func(ex *Exec, st *State, fr *Frame, args []Value) (Value, ctlT) { return C(64, 4242), ctlRet })
 	reg("os.Executable", func(ex *Exec, st *State, fr *Frame, args []Value) (Value, ctlT) {
 		return TupleVal{StrVal{S: "/vh/exe"}, IfaceVal{}}, ctlRet
